@@ -34,6 +34,12 @@ CHECKS = {
    text="The network's dependency relation is the boolean product of the masks, so TLC's exhaustive run over every architecture up to the bound and every draw torch.randint can make decides autoregressiveness for ALL weight values. Final states are rebuilt as real networks (both copies and the mixture subclass, draws injected through torch.randint) and degrees, masks and the measured dependency pattern are compared; generic weights / ReLU / batch-norm / dropout are checked by autograd Jacobians; networks drawn with the real generator are accepted step by step by the trace specification.",
    design_ref="DESIGN.md section 4, C06",
    note="Bounded architecture sizes; exact dependency measured with all-ones weights. " + TRUSTED),
+
+ "C07": dict(
+   technique="TLA+ specification of the coupling index book-keeping (spec/Coupling.tla) exhaustively model-checked by TLC over all masks; every enumerated state replayed on the seven real coupling classes (bit-level identity check, Jacobian pattern vs the specification's dependency relation, round trip)",
+   text="TLC enumerates every mask with values in {-1,0,1,2} (both sides non-empty) x 2-D/image layout x unconditional transform x direction and proves the split / conditioner-input / write-back properties. Each state is replayed on the real classes with a conditioner that mixes all identity elements, so the measured Jacobian pattern must equal the specification's relation; identity features are compared bit for bit on inputs containing -0.0; library conditioners are checked for the subset relation.",
+   design_ref="DESIGN.md section 4, C07",
+   note="Feature counts 2..4 (5 thorough), images of 1x2 pixels; dependency measured by autograd (perturbation for UMNN). " + TRUSTED),
 }
 REASONS = {}
 
